@@ -71,6 +71,26 @@ func reportProp(prop, tier string, seed int, runs []*HarnessRun, known []KnownFi
 		if h.PathsDone == 0 && len(h.Incon) == 0 {
 			h.Incon = append(h.Incon, Inconclusive{h.Spec.Name, "vacuous", "no path reached the end of the harness"})
 		}
+		// translator validation: a witness of a completed, violation-free path
+		// must also run clean natively (all assumptions hold, no assertion fails)
+		if !h.Spec.NoNative && len(h.Cex) == 0 {
+			nval := 1
+			if tier == "thorough" {
+				nval = 3
+			}
+			for i, sm := range h.Samples {
+				if i >= nval {
+					break
+				}
+				doc := &ReplayDoc{Property: prop, Harness: h.Spec.Name, Package: h.Spec.Pkg, Extra: h.Spec.Extra, Obligation: "(validation)", Assignment: sm, Params: h.params}
+				res, out := runNative(doc)
+				if res == "not-reproduced" && !strings.Contains(out, "ZZ-ASSUME-FALSE") && !strings.Contains(out, "ZZ-FAILED") && !strings.Contains(out, "ZZ-PANIC") && !strings.Contains(out, "ZZ-DEADLOCK") {
+					validated++
+				} else {
+					h.Incon = append(h.Incon, Inconclusive{h.Spec.Name, "engine-mismatch", "witness of a clean path does not run clean natively: " + res + "\n" + indent(out) + "\n    inputs: " + compactModel(sm)})
+				}
+			}
+		}
 		// replay counterexamples
 		for _, cx := range h.Cex {
 			replayCex(prop, h, cx)
